@@ -63,7 +63,7 @@ theorem Post.stopped {K : SCtx} {k : Ctx} {sub : Bool} {le q : Prop} {s s' : St}
   rcases h1 with h1 | h1 <;> subst h1
   · obtain ⟨_, hd, _, _, hr, _⟩ := h
     exact stop_of_returning hr hd.ht
-  · obtain ⟨hx, _, _, _, _, _, hht, _, _⟩ := h
+  · obtain ⟨hx, _, _, _, _, _, hht, _, _, _⟩ := h
     exact stop_of_exiting hx hht
 
 theorem Post.change_q_abnormal {K : SCtx} {k : Ctx} {sub : Bool} {le q q' : Prop} {s s' : St}
